@@ -78,31 +78,25 @@ class LT:
         value : int
             Lifetime in milliseconds.
         """
-        if value < 50:
-            multiplier = 0
-            base = LTbase.FIFTY_MILLISECONDS
-        elif value < 100:
-            multiplier = 1
-            base = LTbase.FIFTY_MILLISECONDS
-        elif value < 500:
-            multiplier = int(value / 50 % 64)
-            base = LTbase.FIFTY_MILLISECONDS
-        elif value < 1000:
-            multiplier = 0
-            base = LTbase.ONE_SECOND
-        elif value < 10000:
-            multiplier = int(value / 1000 % 64)
-            base = LTbase.ONE_SECOND
-        elif value < 100000:
-            multiplier = int(value / 10000 % 64)
-            base = LTbase.TEN_SECONDS
-        elif value < 1000000:
-            multiplier = int(value / 100000 % 64)
+        multiplier = 0
+        base = LTbase.FIFTY_MILLISECONDS
+        if value >= 1000000:
             base = LTbase.ONE_HUNDRED_SECONDS
         else:
-            multiplier = 0
-            base = LTbase.ONE_HUNDRED_SECONDS
-
+            # Largest representable Multiplier * Base not exceeding the requested value;
+            # among equal values the coarser base is kept.
+            best = 0
+            for unit, candidate in (
+                (50, LTbase.FIFTY_MILLISECONDS),
+                (1000, LTbase.ONE_SECOND),
+                (10000, LTbase.TEN_SECONDS),
+                (100000, LTbase.ONE_HUNDRED_SECONDS),
+            ):
+                candidate_multiplier = min(int(value // unit), 63)
+                if candidate_multiplier > 0 and candidate_multiplier * unit >= best:
+                    multiplier = candidate_multiplier
+                    base = candidate
+                    best = candidate_multiplier * unit
         return LT(multiplier=multiplier, base=base)
 
     def set_value_in_seconds(self, value: int) -> "LT":
